@@ -72,6 +72,14 @@ CLAIMS = {
          "the bit-exact digest of every object/constant/cache and the answer are logged after every call, and TLC validates the "
          "log against Purity (rejecting at the writing step or at the reading step).",
     design="5/C12", technique="TLC-generated call histories + digest-logging trace validation against a purity state machine"),
+ "C09": dict(
+    text="C09_Metric.tla gives exact squared distances (rationals, infinity) and angle classes ([cos:sin] modulo pi in the plane, "
+         "cos^2 in space) for every supported kind combination on the lattice: point-point incl. one at infinity, point-line/"
+         "plane incl. proportional coordinate vectors, point-3D line, point-segment with clamping, point-polygon (region) in 2D "
+         "and 3D incl. planes far from the origin, point-cuboid, parallel plane-plane/plane-line, angles of points/lines/planes; "
+         "TLC certifies symmetry, zero-iff-incident, foot realises the distance, clamping minimality, antisymmetry and isometry "
+         "invariance; geometer is replayed in both argument orders, singles and collections.",
+    design="5/C09", technique="TLC lattice enumeration with an exact rational metric oracle + replay"),
 }
 
 checks = []
